@@ -34,6 +34,17 @@ theorem cached_cmap_is_built_and_agrees (t : Buf) (h4 : 4 ≤ t.size) (bmp : Nat
   obtain ⟨m, hm⟩ := buildCached_total t h4
   exact ⟨m, hm, fun usv hu => cached_lookup_is_direct_lookup t bmp smp hb hs hS m hm usv hu⟩
 
+/-- **the BMP look-up is the search the OpenType specification describes**: on sorted segments the binary search of `CmapSubtable4Lookup`
+(with its `cMid`/`prev` boundary steps) picks the *first* segment whose end code is not below the code point, which is how the
+specification defines the format ("search for the first endCode that is greater than or equal to the character code"); that segment's
+start code, idDelta and idRangeOffset then give the glyph (`seg4`), and a code point in no segment maps to 0 -/
+theorem direct_bmp_lookup_is_the_specified_search (t : Buf) (bmp : Nat) (smp : Option Nat)
+    (hb : bmpSubtable t = .ok (some bmp)) (hS : sortedCmapB t bmp smp = true) (usv : Nat) (hu : usv ≤ 0xFFFF) :
+    directGet t (some bmp) smp usv = spec4 t bmp usv := by
+  unfold directGet
+  rw [if_neg (by omega)]
+  exact lookup4_is_spec t bmp (bmp_checked t bmp hb) ((sortedCmapB_iff t bmp smp).1 hS).bmp usv
+
 /-- the walk itself, for the record: over sorted ranges `NextCodepoint` answers the next code point that lies in a range -/
 theorem next_codepoint_is_next_in_range {st en : Nat → Nat} {N : Nat} (hS : Sorted st en N) (lim lastKey usv key : Nat)
     (h0 : 0 < usv) (hl : usv < lim) (hk : key < N) :
